@@ -171,3 +171,175 @@ Print Assumptions C14_ttl_honoured_refuted.
 Print Assumptions C14_ttl_cleared_persists_refuted.
 Print Assumptions C14_fire_late_safe_refuted.
 Print Assumptions C14_ttl_refines_refuted.
+
+(* ==================================================================================================
+   C14 at the level of rooms and sessions: the transient data of rooms inside the hub model
+   (model/Hub.v: rooms carry their data; the client op OTransient, the room request ATransient, the
+   initial data of a join).  Proofs in proofs/Hub_transient.v (and proofs/Hub_transient_frame.v).
+   The theorems below hold for EVERY state h, hence after every history of operations (every delivery
+   order of the bus included); the ..._history forms say so explicitly with Hub_wf.run.  The hub model
+   has no time-to-live (that part of the property is the store-level model above).
+   From here on the names step / run / init / op are those of model/Hub.v. *)
+From Verif Require Import model.Hub proofs.Hub_basics proofs.Hub_wf proofs.Hub_easy proofs.Hub_transient_frame proofs.Hub_transient.
+Local Open Scope N_scope.
+
+(* T3. Setting the value a key already has writes nothing and leaves the state literally unchanged. *)
+Theorem C14H_unchanged_set_silent : forall h c sid s k r key val,
+  conn_session h c sid s -> s.(s_room) = Some k -> allowed_transient s = true -> room_of h k = Some r ->
+  val <> 0 -> aget r.(r_transient) key = Some val ->
+  Hub.step h (OTransient c 0 key val) = (h, []).
+Proof. exact transient_set_unchanged. Qed.
+(* ... so does removing a key that is absent (by "remove" or by a set without value) *)
+Theorem C14H_remove_absent_silent : forall h c sid s k r kindn key val,
+  conn_session h c sid s -> s.(s_room) = Some k -> allowed_transient s = true -> room_of h k = Some r ->
+  kindn = 1 \/ (kindn = 0 /\ val = 0) -> aget r.(r_transient) key = None ->
+  Hub.step h (OTransient c kindn key val) = (h, []).
+Proof. exact transient_remove_absent. Qed.
+(* ... and the room request of the backend, when it is delivered, that asks for what is already the case *)
+Theorem C14H_backend_request_unchanged_silent : forall h k r del key val,
+  room_of h k = Some r ->
+  (if del || N.eqb val 0 then aget r.(r_transient) key = None else aget r.(r_transient) key = Some val) ->
+  room_request h k (ATransient del key val) = (h, []).
+Proof. exact room_request_transient_unchanged. Qed.
+(* after every history of operations *)
+Theorem C14H_unchanged_set_silent_history : forall limits gated ops c sid s k r key val,
+  let h := Hub_wf.run (Hub.init limits gated) ops in
+  conn_session h c sid s -> s.(s_room) = Some k -> allowed_transient s = true -> room_of h k = Some r ->
+  val <> 0 -> aget r.(r_transient) key = Some val ->
+  Hub_wf.run (Hub.init limits gated) (ops ++ [OTransient c 0 key val]) = h /\ snd (Hub.step h (OTransient c 0 key val)) = [].
+Proof. exact history_set_unchanged. Qed.
+
+(* T4. Refused requests are answered with the one error on the requester's connection and change nothing. *)
+Theorem C14H_refused_not_in_room : forall h c sid s kindn key val,
+  conn_session h c sid s -> s.(s_room) = None ->
+  Hub.step h (OTransient c kindn key val) = (h, [ToConn c (SError E_not_in_room)]).
+Proof. exact transient_refused_not_in_room. Qed.
+Theorem C14H_refused_not_allowed : forall h c sid s k kindn key val,
+  conn_session h c sid s -> s.(s_room) = Some k -> allowed_transient s = false -> (kindn <? 2) = true ->
+  Hub.step h (OTransient c kindn key val) = (h, [ToConn c (SError E_not_allowed)]).
+Proof. exact transient_gate. Qed.
+Theorem C14H_refused_ignored : forall h c sid s k kindn key val,
+  conn_session h c sid s -> s.(s_room) = Some k -> (2 <=? kindn) = true ->
+  Hub.step h (OTransient c kindn key val) = (h, [ToConn c (SError E_ignored)]).
+Proof. exact transient_refused_ignored. Qed.
+Theorem C14H_refused_history : forall limits gated ops c sid s kindn key val,
+  let h := Hub_wf.run (Hub.init limits gated) ops in
+  conn_session h c sid s ->
+  (s.(s_room) = None \/ (exists k, s.(s_room) = Some k /\ ((2 <=? kindn) = true \/ allowed_transient s = false))) ->
+  Hub_wf.run (Hub.init limits gated) (ops ++ [OTransient c kindn key val]) = h /\
+  exists code, snd (Hub.step h (OTransient c kindn key val)) = [ToConn c (SError code)] /\
+               (code = E_not_in_room \/ code = E_ignored \/ code = E_not_allowed).
+Proof. exact history_refused. Qed.
+(* a room request that is not the backend's own, and one for a room nobody is in *)
+Theorem C14H_backend_request_refused : forall h b signas room del key val,
+  b <> signas \/ h_nb h <= b -> Hub.step h (OApi b signas room (ATransient del key val)) = (h, []).
+Proof. exact api_transient_refused. Qed.
+Theorem C14H_backend_request_no_room : forall h k q, room_of h k = None -> room_request h k q = (h, []).
+Proof. exact room_request_no_room. Qed.
+
+(* T1 (the part about one change of the data; the history form with the frame follows below).  A change of room k's data writes exactly one copy of the
+   one notice per connected listener, the listeners being the non-virtual members of the room at that moment. *)
+Theorem C14H_listeners_are_members_partial : forall h k r del key val,
+  match update_notice r del key val with
+  | None => transient_update h k r del key val = (h, [])
+  | Some t => snd (transient_update h k r del key val) = flat_map (notice_for h t) (transient_listeners h r)
+  end.
+Proof. exact transient_update_outs. Qed.
+Theorem C14H_recipient_is_member_partial : forall h k r del key val c m,
+  In (ToConn c m) (snd (transient_update h k r del key val)) ->
+  exists t sid s, m = STransient t /\ update_notice r del key val = Some t /\ In sid (r_members r) /\
+                  get_sess h sid = Some s /\ is_virtual (s_kind s) = false /\ s_conn s = Some c.
+Proof. exact transient_update_recipient_is_member. Qed.
+Theorem C14H_every_connected_listener_is_told : forall h k r del key val t sid s c,
+  update_notice r del key val = Some t -> In sid (r_members r) -> get_sess h sid = Some s ->
+  is_virtual (s_kind s) = false -> s_conn s = Some c ->
+  In (ToConn c (STransient t)) (snd (transient_update h k r del key val)).
+Proof. exact transient_update_reaches_listeners. Qed.
+(* after every history: what the client op writes goes to connections of non-virtual sessions whose room is the
+   requester's room and which are members of it *)
+Theorem C14H_op_recipients_history_partial : forall limits gated ops c sid s k kindn key val c' t,
+  let h := Hub_wf.run (Hub.init limits gated) ops in
+  conn_session h c sid s -> s.(s_room) = Some k ->
+  In (ToConn c' (STransient t)) (snd (Hub.step h (OTransient c kindn key val))) ->
+  exists r sid' s', room_of h k = Some r /\ In sid' (r_members r) /\ get_sess h sid' = Some s' /\
+                    s_room s' = Some k /\ is_virtual (s_kind s') = false /\ s_conn s' = Some c'.
+Proof. exact history_transient_op_recipients. Qed.
+
+(* T1 for every history (with the frame theorem of proofs/Hub_transient_frame.v).  After every history of operations
+   (bus not assumed empty, deliveries in any order), whatever operation comes next - except the hello that resumes a
+   session, which flushes the queue of the time the session was away, and a join, which writes the initial data - a
+   transient message is written only to the connection of a non-virtual session that is at that moment a member of
+   the room whose data changes and whose own room is that room. *)
+Theorem C14H_written_only_to_members : forall limits gated ops o c' t,
+  let h := Hub_wf.run (Hub.init limits gated) ops in
+  match o with OHello _ (HResume _) | OJoin _ _ _ _ => False | _ => True end ->
+  In (ToConn c' (STransient t)) (snd (Hub.step h o)) ->
+  exists k r sid' s', room_of h k = Some r /\ In sid' (r_members r) /\ get_sess h sid' = Some s' /\
+                      s_room s' = Some k /\ is_virtual (s_kind s') = false /\ s_conn s' = Some c'.
+Proof. exact transient_written_to_members. Qed.
+(* a join writes no transient message but the initial data (that it goes to the joiner's connection is shown by the
+   model's definition and the differential run, not proved) *)
+Theorem C14H_join_writes_only_initial_partial : forall limits gated ops c rn rs rep c' t,
+  let h := Hub_wf.run (Hub.init limits gated) ops in
+  In (ToConn c' (STransient t)) (snd (Hub.step h (OJoin c rn rs rep))) -> exists d, t = TInit d.
+Proof. exact join_writes_only_initial. Qed.
+(* no publication queued on the bus ever carries a transient message: notices are never in flight *)
+Theorem C14H_bus_carries_no_transient : forall limits gated ops, BusNT (Hub_wf.run (Hub.init limits gated) ops).
+Proof. exact busnt_reachable. Qed.
+
+(* T2 (partial: one step of the replica induction).  The notice describes the change: after it room k is the room
+   before with its data replaced by "data before, notice applied"; no other room, no connection and no session's
+   connection / kind / room changes.  So a listener whose replica was the room's data has the room's data again once
+   it applied the notice. *)
+Theorem C14H_replica_step_partial : forall h k r del key val,
+  match update_notice r del key val with
+  | None => transient_update h k r del key val = (h, [])
+  | Some t => same (set_rooms h (pset h.(h_rooms) k (room_set_transient r (apply_tmsg r.(r_transient) t))))
+                   (fst (transient_update h k r del key val))
+  end.
+Proof. exact transient_update_replica. Qed.
+Theorem C14H_replica_after_notice_partial : forall h k r del key val t (replica : alist N),
+  update_notice r del key val = Some t -> replica = r.(r_transient) ->
+  exists r', room_of (fst (transient_update h k r del key val)) k = Some r' /\ apply_tmsg replica t = r'.(r_transient)
+             /\ r_members r' = r_members r.
+Proof. exact replica_step. Qed.
+
+(* non-vacuity: computed on the model after a history (two members of room 1 of backend 0, key 1 = 2) *)
+Example C14H_set_reaches_both_members : snd (qstep demo_h (OTransient 2 0 1 3)) =
+  [ToConn 1 (STransient (TSet 1 3 (Some 2))); ToConn 2 (STransient (TSet 1 3 (Some 2)))].
+Proof. exact demo_set. Qed.
+Example C14H_same_value_silent : qstep demo_h (OTransient 2 0 1 2) = (demo_h, []).
+Proof. exact demo_same. Qed.
+Example C14H_left_session_not_told : snd (qstep (fst (qstep demo_h (OJoin 2 0 0 (RepOk None 0)))) (OTransient 1 1 1 0)) =
+  [ToConn 1 (STransient (TRemove 1 (Some 2)))].
+Proof. exact demo_left. Qed.
+Example C14H_refusals : qstep demo_h (OTransient 3 0 1 1) = (demo_h, [ToConn 3 (SError E_not_in_room)]) /\
+                        qstep demo_h (OTransient 1 5 1 1) = (demo_h, [ToConn 1 (SError E_ignored)]).
+Proof. split; [exact demo_not_in_room|exact demo_ignored]. Qed.
+Example C14H_backend_request_reaches_members : snd (qstep demo_h (OApi 0 0 1 (ATransient true 1 0))) =
+  [ToConn 1 (STransient (TRemove 1 (Some 2))); ToConn 2 (STransient (TRemove 1 (Some 2)))].
+Proof. exact demo_backend_request. Qed.
+Example C14H_hypotheses_satisfiable : exists s r, conn_session demo_h 2 2 s /\ s_room s = Some (0, 1) /\ allowed_transient s = true /\
+  room_of demo_h (0, 1) = Some r /\ aget (r_transient r) 1 = Some 2 /\
+  update_notice r false 1 2 = None /\ update_notice r false 1 3 = Some (TSet 1 3 (Some 2)).
+Proof. exact demo_hyps. Qed.
+
+Print Assumptions C14H_unchanged_set_silent.
+Print Assumptions C14H_remove_absent_silent.
+Print Assumptions C14H_backend_request_unchanged_silent.
+Print Assumptions C14H_unchanged_set_silent_history.
+Print Assumptions C14H_refused_not_in_room.
+Print Assumptions C14H_refused_not_allowed.
+Print Assumptions C14H_refused_ignored.
+Print Assumptions C14H_refused_history.
+Print Assumptions C14H_backend_request_refused.
+Print Assumptions C14H_backend_request_no_room.
+Print Assumptions C14H_listeners_are_members_partial.
+Print Assumptions C14H_recipient_is_member_partial.
+Print Assumptions C14H_every_connected_listener_is_told.
+Print Assumptions C14H_op_recipients_history_partial.
+Print Assumptions C14H_written_only_to_members.
+Print Assumptions C14H_join_writes_only_initial_partial.
+Print Assumptions C14H_bus_carries_no_transient.
+Print Assumptions C14H_replica_step_partial.
+Print Assumptions C14H_replica_after_notice_partial.
